@@ -1197,12 +1197,28 @@ pub const CLASS_OPS: [Op; 6] = [Op::Minus, Op::Plus, Op::Or, Op::And, Op::Divide
 
 /// a program with one operator chain (operators `ops`) in statement position `position` (0..5)
 pub fn chain_prog(ops: &[Op], operand_kinds: u64, position: usize) -> Prog {
+    chain_prog_fault(ops, operand_kinds, position, None)
+}
+
+/// the same with one faulty operand (`fault`: operand index and kind — 0: undeclared value,
+/// 1: operand of another type, 2: call of an undeclared function): every operand of a chain has
+/// to be analysed, wherever the fold puts it (seeded change C01-c)
+pub fn chain_prog_fault(ops: &[Op], operand_kinds: u64, position: usize, fault: Option<(usize, u8)>) -> Prog {
     let t = Ty::Prim(PT::U8);
     let mut kinds = operand_kinds;
     let mut tag = 0u32;
     let mut operand = |i: usize| -> EV {
         let k = kinds % 5;
         kinds /= 5;
+        if let Some((fi, fk)) = fault {
+            if fi == i {
+                return match fk % 3 {
+                    0 => EV::Var(UNKNOWN.to_string()),
+                    1 => EV::Lit(PV::Bool(true)),
+                    _ => EV::Call(UNKNOWN.to_string(), vec![]),
+                };
+            }
+        }
         match k {
             0 => EV::Lit(PV::U8(i as u8)),
             1 => EV::Var("p".to_string()),
